@@ -4,7 +4,7 @@ import re
 
 from sa.loader import AnalysisError, norm, walk_local
 from sa.spec import schema_spec as spec
-from .common import analysis, literals_tested, assigned_values
+from .common import analysis, literals_tested, assigned_values, tree_order
 
 PROP = "C13"
 TECHNIQUE = "constant propagation over the canonical writer's emitted templates partitioned by the kind dispatch (key whitelist and order, no whitespace, bare integers, primitives in simple form); provenance of names from the parser (shared naming rules of C11); walker exhaustiveness; effect analysis restricted to the canonical-form functions (no remembered results)"
@@ -31,10 +31,13 @@ class Canon:
     def text_of(self, stmts):
         parts = []
         for st in stmts:
+            order = tree_order(st)
+            here = []
             for n in ast.walk(st):
                 if isinstance(n, ast.Call) and isinstance(n.func, ast.Attribute) and n.func.attr == "write" and norm(n.func.value) == self.FO and n.args:
-                    parts.append((n.lineno, n.col_offset, render(n.args[0])))
-        return "".join(t for (_, _, t) in sorted(parts))
+                    here.append((order[id(n)], render(n.args[0])))
+            parts.extend(t for _, t in sorted(here))
+        return "".join(parts)
 
     def regions(self, stmts, out):
         """partition the function by its kind dispatch: {kinds: (node, text)}"""
